@@ -3,6 +3,7 @@ module verif/harness
 go 1.25.0
 
 require (
+	golang.org/x/image v0.44.0
 	golang.org/x/text v0.40.0
 	seehuhn.de/go/geom v0.7.5-0.20260817173237-f200797cc36c
 	seehuhn.de/go/membudget v0.7.4
@@ -14,7 +15,6 @@ require (
 
 require (
 	github.com/xdg-go/stringprep v1.0.4 // indirect
-	golang.org/x/image v0.44.0 // indirect
 	seehuhn.de/go/dag v1.0.0 // indirect
 	seehuhn.de/go/icc v0.7.5-0.20260816204135-054437223970 // indirect
 )
